@@ -23,6 +23,23 @@ Definition duration_as_nanos (secs nanos : N) : N := secs * 1000000000 + nanos.
 Definition fine_from_duration (secs nanos : N) : res N :=
   checked_mul 128 (duration_as_nanos secs nanos) 1000.
 
+(** [Timestamp::duration_since] / [RawSample::duration], OS arm
+    ([src/time/timestamp/mod.rs]: [(Os(this), Os(earlier), Timer::Os) =>
+    this.duration_since(earlier).into()]).  An [Instant] is modelled as the
+    number of nanoseconds since an arbitrary origin;
+    [Instant::duration_since] saturates at zero (as N subtraction does), the
+    resulting [Duration] is split into seconds and sub-second nanoseconds and
+    converted by [FineDuration::from]. *)
+Definition os_duration_since (later earlier : N) : res N :=
+  let e := later - earlier in
+  fine_from_duration (e / 1000000000) (e mod 1000000000).
+
+Definition osd_sb (earlier later : N) (out : res N) : bool :=
+  match out with
+  | Ok v => v =? (later - earlier) * 1000
+  | Panic _ => false
+  end.
+
 (** [Timer::measure_precision] as a consumer of the stream of samples
     (differences of successive start/end readings, already in picoseconds).
     State: minimum seen, how often it was seen again, the artificial delay
